@@ -34,7 +34,7 @@ C05_FUNCS = ["quantile_score", "quantile_interval_score", "interval_score", "mse
 
 
 # counters that every complete run must have incremented (harness self-check, see core.run_check)
-EXPECT_COUNTS = ['pinball_grid_points', 'interval_grid_points', 'angular_grid_points', 'conditioning', 'label_oracle', 'pandas:']
+EXPECT_COUNTS = ['pinball_grid_points', 'interval_grid_points', 'angular_grid_points', 'conditioning', 'infinite_values', 'label_oracle', 'label_oracle:obs_source_dim', 'label_oracle:weights', 'pandas:']
 
 def kernel_grids(ctx):
     """regenerated kernel vs proved specification vs implementation on the full tie grid"""
@@ -116,7 +116,11 @@ def run(ctx):
             if not ctx.time_left():
                 break
             angles = getattr(fn, "has_angular", False) and rng.random() < 0.3
-            arrs, w, sizes = scorelib.gen_arrays(rng, fn, angles=angles)
+            # infinite values are data, not missing values; rmse (sqrt on the host) and the moment scores (inf - inf inside the
+            # documented formula) are left to finite inputs
+            arrs, w, sizes = scorelib.gen_arrays(rng, fn, angles=angles, inf_p=0.0 if (name == "rmse" or fn.kind == "moments") else 0.2)
+            if any(np.isinf(a.values).any() for a in arrs):
+                ctx.count("infinite_values")
             bad = rng.random() < 0.1
             extra = fn.gen_extra(rng, bad=bad)
             if angles:
@@ -192,41 +196,63 @@ def conditioning(ctx):
 
 
 def label_oracle(ctx):
-    """model-free oracle: 1-D series whose observation stores the shared coordinate in another order (and has labels
-    the forecast lacks); cases are paired by label and the documented formula is evaluated in Python rationals"""
+    """model-free oracle: series whose observation stores the shared coordinate in another order, has labels the
+    forecast lacks and (often) a dimension of its own ('src': several observation sources per forecast); optional weights
+    along 't' stored in yet another order. Cases are paired by label and the documented formula is evaluated in Python
+    rationals over ALL valid (forecast, observation) pairs"""
     from fractions import Fraction as Fr
     S = scorelib.S()
     C = S.continuous
     rng = ctx.rng
-    for _ in range(ctx.n(20, 200)):
+    for _ in range(ctx.n(30, 300)):
         n = rng.randint(2, 6)
         labs = rng.sample(range(10), n)
         fv = {l: gens.grid_value(rng) for l in labs}
         olabs = rng.sample(labs, n) if rng.random() < 0.7 else rng.sample(labs, n - 1) + [11]
-        ov = {l: (gens.grid_value(rng) if rng.random() > 0.15 else float("nan")) for l in olabs}
+        nsrc = rng.choice([0, 0, 1, 2, 3])          # 0: no source dimension
+        srcs = list(range(max(nsrc, 1)))
+        ov = {(s_, l): (gens.grid_value(rng) if rng.random() > 0.15 else float("nan")) for s_ in srcs for l in olabs}
         f = xr.DataArray([fv[l] for l in labs], dims="t", coords={"t": labs})
-        o = xr.DataArray([ov[l] for l in olabs], dims="t", coords={"t": olabs})
-        pairs = [(Fr(fv[l]), Fr(ov[l])) for l in labs if l in ov and ov[l] == ov[l]]
+        if nsrc:
+            o = xr.DataArray([[ov[(s_, l)] for l in olabs] for s_ in srcs], dims=["src", "t"], coords={"t": olabs, "src": [10 * s_ for s_ in srcs]})
+            if rng.random() < 0.5:
+                o = o.transpose("t", "src")
+        else:
+            o = xr.DataArray([ov[(0, l)] for l in olabs], dims="t", coords={"t": olabs})
+        wv = None
+        if rng.random() < 0.4:
+            wl = rng.sample(labs, n)
+            wv = {l: float(rng.choice([0.5, 1.0, 2.0, 3.0])) for l in wl}
+            w = xr.DataArray([wv[l] for l in wl], dims="t", coords={"t": wl})
+        pairs = [(Fr(fv[l]), Fr(ov[(s_, l)]), Fr(wv[l]) if wv else Fr(1)) for s_ in srcs for l in labs if l in olabs and ov[(s_, l)] == ov[(s_, l)]]
         alpha = rng.choice([0.1, 0.25, 0.5, 0.75])
-        desc = {"fcst": gens.da_repr(f), "obs": gens.da_repr(o), "alpha": alpha}
-        ctx.case(("label-oracle", desc["fcst"], desc["obs"], alpha))
-        ctx.count("label_oracle")
+        desc = {"fcst": gens.da_repr(f), "obs": gens.da_repr(o), "alpha": alpha, "weights": None if wv is None else gens.da_repr(w)}
+        ctx.case(("label-oracle", desc["fcst"], desc["obs"], alpha, str(desc["weights"])))
+        ctx.count("label_oracle" + (":obs_source_dim" if nsrc else "") + (":weights" if wv else ""))
         if not pairs:
             continue
         m = len(pairs)
         a_ = Fr(alpha)
-        sf, so = sum(p[0] for p in pairs), sum(p[1] for p in pairs)
-        want = {"mse": sum((a - b) ** 2 for a, b in pairs) / m, "mae": sum(abs(a - b) for a, b in pairs) / m, "additive_bias": (sf - so) / m,
-                "quantile_score": sum(((1 - a_) * (a - b) if a > b else a_ * (b - a)) for a, b in pairs) / m}
+        sf, so = sum(p[2] * p[0] for p in pairs), sum(p[2] * p[1] for p in pairs)
+        want = {"mse": sum(p[2] * (p[0] - p[1]) ** 2 for p in pairs) / m, "mae": sum(p[2] * abs(p[0] - p[1]) for p in pairs) / m, "additive_bias": (sf - so) / m,
+                "mean_error": (sf - so) / m,
+                "quantile_score": sum(p[2] * ((1 - a_) * (p[0] - p[1]) if p[0] > p[1] else a_ * (p[1] - p[0])) for p in pairs) / m}
+        if nsrc:
+            del want["quantile_score"]          # quantile_score requires obs.dims to be a subset of fcst.dims (documented, check_dims)
         if so != 0:
             want["multiplicative_bias"] = sf / so
             want["pbias"] = 100 * (sf - so) / so
-        for nm, wv in want.items():
+        kww = {} if wv is None else {"weights": w}
+        for nm, wv_ in want.items():
             fn = getattr(C, nm)
-            g = core.call_impl(fn, f, o, alpha=alpha) if nm == "quantile_score" else core.call_impl(fn, f, o)
-            if g[0] != "ok" or not abs(float(g[1]) - float(wv)) <= 1e-9 * max(1.0, abs(float(wv))):
-                ctx.violation(f"{nm} = {g[1] if g[0] != 'ok' else float(g[1])!r} differs from the documented formula on the label-paired valid cases ({float(wv)!r})",
-                              desc, float(wv), str(g[1])[:60])
+            g = core.call_impl(fn, f, o, alpha=alpha, **kww) if nm == "quantile_score" else core.call_impl(fn, f, o, **kww)
+            if g[0] != "ok" or np.ndim(g[1]) != 0 or not abs(float(g[1]) - float(wv_)) <= 1e-9 * max(1.0, abs(float(wv_))):
+                ctx.violation(f"{nm} = {g[1] if g[0] != 'ok' else (float(g[1]) if np.ndim(g[1]) == 0 else 'an array with dims %s' % (g[1].dims,))!r} differs from the documented formula over all "
+                              f"label-paired valid cases ({float(wv_)!r})", desc, float(wv_), str(g[1])[:80])
+        if "mse" in want:
+            g = core.call_impl(C.rmse, f, o, **kww)
+            if g[0] != "ok" or not abs(float(g[1]) ** 2 - float(want["mse"])) <= 1e-9 * max(1.0, float(want["mse"])):
+                ctx.violation(f"rmse^2 differs from the weighted mean squared error over all label-paired valid cases ({float(want['mse'])!r})", desc, float(want["mse"]), str(g[1])[:80])
 
 
 def run_without_model(ctx):
